@@ -32,7 +32,16 @@ type PlanHarness struct {
 	QuickOnly bool              `json:"quick_only"`
 }
 
+// Rewrite: a source file of /repo that the check compiles (in the engine and natively) as a copy
+// regenerated from the working tree with fixed textual substitutions (used to put fsstore on a
+// model file system).
+type Rewrite struct {
+	File  string      `json:"file"`
+	Subst [][2]string `json:"subst"`
+}
+
 type PlanProperty struct {
+	Rewrites    []Rewrite     `json:"rewrites"`
 	Level       string        `json:"level"`
 	Harnesses   []PlanHarness `json:"harnesses"`
 	Assumptions []string      `json:"assumptions"`
